@@ -659,9 +659,83 @@ def rand_pre(rng, types):
     return ctx
 
 
+# ---- attributes set on a variable AFTER construction (Variable.__setattr__)
+_ATTR_TYPES = ["ta", "tb", "tc", "td"]
+_ATTR_EXTRA = [{"unit": "m"}, {"latex_name": "L", "id": 2}, {"range": [0, 1]}, {"unit": "mm", "tags": {"a": [1]}}]
+
+
+def attr_update_case(n, updates, composed):
+    """a chain of n typed variables; `updates` are set with setattr on the Compose (composed=True) or on the LAST variable before
+    composing (composed=False).  An update of the composed variable concerns the RESULTING variable only: context.variable
+    carries it at the top level, and every component is still described, unchanged, under its type.  Returns text or None"""
+    def getter(i):
+        return lambda d: (d, i)
+    specs = [("v%d" % i, _ATTR_TYPES[i], copy.deepcopy(_ATTR_EXTRA[i])) for i in range(n)]
+    vs = [Variable(nm, getter(i), type=ty, **copy.deepcopy(ex)) for i, (nm, ty, ex) in enumerate(specs)]
+    own = [dict({"name": nm}, **copy.deepcopy(ex)) for nm, ty, ex in specs]
+    if composed:
+        c = Compose(*vs)
+        for k, v in updates.items():
+            setattr(c, k, copy.deepcopy(v))
+    else:
+        for k, v in updates.items():
+            setattr(vs[-1], k, copy.deepcopy(v))
+        own[-1].update(copy.deepcopy(updates))
+        c = Compose(*vs)
+    before = copy.deepcopy(c.var_context)
+    for value in (5, (5, {"run": 1}), 5):
+        try:
+            with watchdog(5):
+                data, ctx = c(copy.deepcopy(value))
+        except Timeout:
+            return "application does not return"
+        except Exception as e:
+            return "application raised %s: %s" % (type(e).__name__, str(e)[:120])
+        cv = ctx.get("variable", {})
+        top = dict(own[-1])
+        top.update(updates)
+        for k, v in top.items():
+            if cv.get(k) != v:
+                return "context.variable.%s = %r, the resulting variable has %r" % (k, cv.get(k), v)
+        if cv.get("compose") != _ATTR_TYPES[:n]:
+            return "context.variable.compose = %r, the chain has the types %r" % (cv.get("compose"), _ATTR_TYPES[:n])
+        for i in range(n):
+            if cv.get(_ATTR_TYPES[i]) != own[i]:
+                return ("context.variable.%s = %r, but the variable of that type was given the description %r"
+                        % (_ATTR_TYPES[i], cv.get(_ATTR_TYPES[i]), own[i]))
+    if c.var_context != before:
+        return "applying the variable changed its own context"
+    return None
+
+
+def replay_attr_update(n, updates, composed):
+    return attr_update_case(n, updates, composed) is not None
+
+
+def scope_attr_updates(R):
+    ups = [{}, {"latex_name": "X"}, {"unit": "cm"}, {"name": "renamed", "unit": "cm"}, {"range": [2, 3]}, {"id": 0}]
+    R.scope("attributes set after construction (var.attr = value)",
+            "chains of 2..4 typed variables x %d sets of attributes assigned to the Compose itself, "
+            "applied to a bare value, a value with context and again: context.variable has the resulting variable's "
+            "attributes (updates included) at the top level, compose lists the types, and EVERY component is described, "
+            "unchanged, under its type" % len(ups), True)
+    for n in range(2, 5):
+        for u in ups:
+            for composed in (True,):        # (what an update of a COMPONENT after its construction should do to the copy
+                                           #  under its type is not stated by the property: not demanded here)
+                R.case(True, {"n": n, "updates": u, "on_compose": composed})
+                bad = attr_update_case(n, u, composed)
+                if bad:
+                    R.fail("Variable.__setattr__/component-description-changed" if "of that type" in bad else
+                           "Variable.__setattr__/resulting-variable", "chain of %d, %s = %r: %s"
+                           % (n, "Compose attributes" if composed else "attributes of the last variable", u, bad),
+                           {"n": n, "updates": u, "on_compose": composed}, {"fn": "replay_attr_update", "args": [n, u, composed]})
+
+
 def body(R):
     try:
         scopes(R)
+        scope_attr_updates(R)
     except HangBudget:
         R.scope("(run cut short)", "stopped after 3 confirmed non-terminations (each repeated with an 8 s limit); the scopes "
                 "above are incomplete", False)
@@ -833,7 +907,7 @@ def scopes(R):
 
 
 if __name__ == "__main__":
-    R = Run("C14", {"replay_chain": replay_chain, "replay_combine": replay_combine})
+    R = Run("C14", {"replay_chain": replay_chain, "replay_combine": replay_combine, "replay_attr_update": replay_attr_update})
     sys.exit(R.main(body, "exhaustive small scopes over chain length, type alphabet, attribute set and value context, plus seeded random "
                           "chains; a case is non-trivial when the real Compose / Sequence / Combine was built, applied and compared "
                           "with the reference; cases are distinct by construction of the enumeration"))
